@@ -1,71 +1,7 @@
-# Per-property configuration for ./check (levels, budgets, dependencies on generated modules).
-PROPS = {
-    "C20": {
-        "level": "proof",
-        "n": {"quick": 3000, "thorough": 200000},
-        "gen_needs": ["Gen_protowire", "Gen_proto", "Gen_protobinary"],
-        "assumptions": [
-            "theorems are about definitions regenerated from proto/protowire/*.go and proto/binary/binary.go by tools/go2coq on this run",
-            "Go slices are shorter than 2^63 bytes (hypothesis of ConsumeBytes_ref) and buffers shorter than 2^62 (dispatch_inverse)",
-            "float32/float64 values are modelled by their IEEE bit patterns (math.Float*bits is the identity in the model)",
-            "message-level WriteAnyWithDesc/ReadAnyWithDesc (lists, maps, nested messages) is covered under C07/C10's model, not here",
-        ],
-        "trusted_base": ["google.golang.org/protobuf/encoding/protowire as the reference implementation"],
-        "level_text": "Machine-checked proof (Coq) that the varint/zig-zag/fixed/bytes codecs generated from the Go source equal a recursive reference for all values and all byte strings, and that the descriptor-driven scalar reader inverts the writer for every kind; tied to the code by regeneration (go2coq) on every run plus differential runs of the real functions, protobuf-go and the extracted definitions.",
-        "level_note": "Trusted: Coq kernel, go2coq translator (validated each run by executing generated definitions against the real functions), extraction + OCaml driver, Go harness, protobuf-go protowire as reference. Message-level reader/writer is covered under C07/C10.",
-        "technique": "Coq proof over go2coq-translated definitions + differential correspondence",
-    },
-    "C01": {
-        "level": "proof",
-        "n": {"quick": 3000, "thorough": 150000},
-        "gen_needs": [],
-        "assumptions": [
-            "hand-written model (ThriftWire/ThriftGeneric) tied to thrift/generic by differential runs only",
-            "I08 map keys are compared through an unsigned byte as the code does (harness uses keys 0..127 for int-key paths)",
-            "Node.Index() reports an out-of-range index as a non-not-found error; accepted as an error result",
-        ],
-        "trusted_base": [],
-        "level_text": "Coq proofs that the independent decoder inverts the encoder and that skip advances by exactly the encoded length for every well-formed value (all shapes, sizes, depths), plus byte-level get_by_path and AST-level lookup models evaluated side by side; the implementation's Node/Value GetByPath, Field/Index/GetByStr/GetByInt/GetByRaw and Children are compared with the model on generated values for type, exact byte span, not-found and error class.",
-    },
-    "C04": {
-        "level": "proof",
-        "n": {"quick": 4000, "thorough": 200000},
-        "gen_needs": [],
-        "assumptions": [
-            "insertion position is left open by the property: the model inserts at the front as the code does, back insertion is classified as drift",
-            "inserted sub values have the type the container declares (API contract); raw map keys are encodings of the key type",
-        ],
-        "trusted_base": [],
-        "level_text": "Edit histories (set / unset, Node and Value variants) are replayed on the decoded AST by a Gallina model; after every step the implementation's bytes must equal the encoding of the model state, 'existed' and error flags must match, failed operations and forks must leave buffers unchanged. Theorems: decoder round trip / well-formedness preservation of the model edits.",
-    },
-    "C04": {
-        "level": "proof",
-        "n": {"quick": 4000, "thorough": 200000},
-        "gen_needs": [],
-        "assumptions": [],
-        "trusted_base": [],
-    },
-    "C19": {
-        "level": "proof",
-        "n": {"quick": 3000, "thorough": 200000},
-        "gen_needs": ["Gen_thrift"],
-        "assumptions": [
-            "the writer side (malloc + binary.BigEndian.Put*) is not translated by go2coq (aliasing writes); it is tied by differential runs",
-            "message type is one byte (0..255), method name shorter than 2^31 in unwrap_wrap",
-            "WriteAnyWithDesc/ReadAnyWithDesc are not covered yet (only the descriptor-free WriteAny/ReadAny)",
-        ],
-        "trusted_base": [],
-        "level_text": "Coq proofs: decode(encode v ++ r) = (v, r) and skip advances by exactly |encode v| for every well-formed value of every shape and depth (model of SkipGo incl. its fixed-size fast paths), unwrap(wrap ...) returns name/type/seq/id/body with header++body++footer = wrap, and the model's leaf tables equal the definitions generated from thrift/*.go (typeSize, Type.Valid/IsInt/IsComplex, big-endian decoders). Correspondence: writer/reader for all scalar kinds, strings, SkipGo and SkipNative cursors on generated/truncated/corrupted values, envelopes, WriteAny/ReadAny round trips.",
-    },
-    "C11": {
-        "level": "proof",
-        "n": {"quick": 3000, "thorough": 150000},
-        "gen_needs": [],
-        "assumptions": [
-            "only the Thrift half (Value.MarshalTo) is modelled here; the Protobuf half is checked with the Protobuf family (C10)",
-            "values conform to the source descriptor up to unknown fields; target descriptors are structural variants (field subsets/supersets at every depth, shared / cloned / separately parsed sub-descriptors)",
-        ],
-        "trusted_base": [],
-        "level_text": "Gallina spec project(from,to,opts) on the decoded AST (ids in both descriptors kept in source order, unknown dropped/error, required check, default zero-fill, raw copy for the same descriptor) with theorems about it; the implementation's MarshalTo output must be byte-identical to the encoding of the projection (error class otherwise) on generated descriptor pairs incl. pointer-equal and separately parsed ones.",
-    },
-}
+# Per-property configuration for ./check: one JSON file per property under tools/props/ (levels, budgets,
+# dependencies on generated modules, assumptions). "claimed": false keeps a property out of MANIFEST.checks.
+import json, os, glob
+_D = os.path.join(os.path.dirname(os.path.abspath(__file__)), "props")
+PROPS = {}
+for _f in sorted(glob.glob(os.path.join(_D, "C*.json"))):
+    PROPS[os.path.basename(_f)[:-5]] = json.load(open(_f))
